@@ -13,6 +13,31 @@ def nontrivial(d):
     return len(d["v"]) >= 3 and any(x > 0 for x in d["v"])
 
 
+def _bump(ev, path, delta, expect, mode="ss", pred=None):
+    """Adds `delta` to one field of one recorded step (k >= 2) of a run of the given mode whose trace is non-negative."""
+    hdr = None
+    for i, e in enumerate(ev):
+        if e.get("ev") == "Hdr":
+            hdr = e if (e["mode"] == mode and all(v >= 0 for v in e["tv"])) else None
+        elif e.get("ev") == "begin":
+            hdr = None
+        elif e.get("ev") == "Step" and hdr is not None and e["k"] >= 2 and (pred is None or pred(e)):
+            o = e
+            for k in path[:-1]:
+                o = o[k]
+            o[path[-1]] += delta
+            return ev, i, expect
+    return None
+
+
+def _bump_get(ev, key, idx, delta, expect):
+    for i, e in enumerate(ev):
+        if e.get("ev") == "Get":
+            e[key][idx] += delta
+            return ev, i, expect
+    return None
+
+
 RULE = ("cases = every finished behaviour of the bounded Level-B models of TrainSim.tla (route x front-position "
         "sequence replayed as a real set-speed run; elevation profile x train length x Fwd/Unk/Bwd move sequence "
         "replayed into the real path_res::Strap) + seeded toy-scale dyadic set-speed runs (random routes, car mixes, "
@@ -33,19 +58,19 @@ GROUP = dict(
     name="trainsim", bin="avh_trainsim",
     model_spec="MCTrainSim.tla", trace_spec="TrainSimTrace.tla", trace_cfg="TrainSimTrace.cfg",
     models={
-        "quick": [dict(cfg="MCTrainSim_locateQ.cfg", emit=True, max_emit=1500),
-                  dict(cfg="MCTrainSim_strapE.cfg", emit=True, max_emit=2500),
+        "quick": [dict(cfg="MCTrainSim_locateQ.cfg", emit=True, max_emit=3000),
+                  dict(cfg="MCTrainSim_strapE.cfg", emit=True, max_emit=4000),
                   dict(cfg="MCTrainSim_strapQ3.cfg", emit=False),
                   dict(cfg="MCTrainSim_ledger.cfg", emit=False),
                   dict(cfg="MCTrainSim_fault.cfg", emit=False)],
-        "thorough": [dict(cfg="MCTrainSim_locateT.cfg", emit=True, max_emit=20000),
+        "thorough": [dict(cfg="MCTrainSim_locateT.cfg", emit=True, max_emit=12000),
                      dict(cfg="MCTrainSim_strapE.cfg", emit=True),
                      dict(cfg="MCTrainSim_strapQ.cfg", emit=False, workers=12, timeout=900),
                      dict(cfg="MCTrainSim_strapT.cfg", emit=False, workers=12, timeout=1800),
                      dict(cfg="MCTrainSim_ledger.cfg", emit=False),
                      dict(cfg="MCTrainSim_fault.cfg", emit=False)],
     },
-    gen_n={"quick": 256, "thorough": 4096},
+    gen_n={"quick": 320, "thorough": 2560},
     per_case_ms=30000,
     harness_timeout={"quick": 300, "thorough": 1800},
     trace_timeout={"quick": 600, "thorough": 3000},
@@ -56,12 +81,12 @@ GROUP = dict(
                                 "NoPanic", "QOverflow", "HarnessOk"],
                     assumptions=A_COMMON + A_SL),
         "C14": dict(invariants=["FollowTime", "FollowSpeed", "MassCompound", "PwrAccel", "PwrRes", "PwrClip",
-                                "PwrEnergy", "PwrEnergyPos", "PwrEnergyNeg", "NegSpeedRejected", "StepOk",
+                                "PwrEnergy", "PwrEnergyPos", "PwrEnergyNeg", "NegSpeedRejected", "RefusedOnlyNegative",
                                 "NoPanic", "QOverflow", "HarnessOk"],
                     assumptions=A_COMMON + A_TOY),
         "C07": dict(invariants=["ResTowed", "ResMass", "ResWeight", "ResRolling", "ResBearing", "ResDavisB", "ResAero",
                                 "ResGrade", "ResCurve", "ResElevFront", "ResGradeFront", "ResGradeBack", "StrapOk",
-                                "QExact", "QOverflow", "HarnessOk"],
+                                "QOverflow", "HarnessOk"],
                     assumptions=A_COMMON + A_TOY + [
                         "the cumulative curve resistance is the path's own curve table (C06 checks it against the network); "
                         "toy curves stay below one degree per 100 ft so that it is on the lattice",
@@ -72,12 +97,33 @@ GROUP = dict(
                         "almost_eq of the code (1e-8 relative / absolute) widened by the quantisation of both sides",
                         "getters are read with simulation_days = Some(days); the None default is not asserted"]),
     },
-    sigs={"neg_first_point": lambda d, ev, inv: (d.get("kind", "ss") == "ss" and inv == "NegSpeedRejected"
-                                                and len(d.get("v", [])) > 0 and d["v"][0] < 0)},
+    sigs={},
+    fault_models=[],   # the fault config (MCTrainSim_fault.cfg) is a positive invariant (FaultDetected) of the regular tiers
+    selftest_cases=32,
+    corrupt={
+        "front_offset": lambda ev: _bump(ev, ["x"], 1, ["KinOffset"]),
+        "rear_offset": lambda ev: _bump(ev, ["xb"], 1, ["KinBack"]),
+        "front_link": lambda ev: _bump(ev, ["link"], 90, ["LocLink"]),
+        "sl_distance": lambda ev: _bump(ev, ["dist"], 3, ["KinDist"], mode="sl"),
+        "accel_power": lambda ev: _bump(ev, ["pan"], 1, ["PwrAccel"]),
+        "wheel_power": lambda ev: _bump(ev, ["pw"], 1000, ["PwrClip"]),
+        "wheel_energy": lambda ev: _bump(ev, ["e"], 100, ["PwrEnergy"]),
+        "grade_force": lambda ev: _bump(ev, ["rgl"], 1, ["ResGrade"]),
+        "rear_grade": lambda ev: _bump(ev, ["gb"], 1, ["ResGradeBack"]),
+        "aero_force": lambda ev: _bump(ev, ["ae"], 1, ["ResAero"]),
+        "consist_energy": lambda ev: _bump(ev, ["c", "e"], 100, ["LedEnergyOut"]),
+        "fuel_getter": lambda ev: _bump(ev, ["c", "gef"], 100, ["LedFuel"]),
+        "sl_consist_power": lambda ev: _bump(ev, ["c", "out"], 100, ["LedPwrTrainConsist"], mode="sl"),
+        "annual_km": lambda ev: _bump_get(ev, "km", 1, 5000, ["GetAnnual"]),
+    },
 )
 
 
 def _vacuity(r):
+    owned = {i for p in GROUP["props"].values() for i in p["invariants"]}
+    stray = sorted({v[2] for v in r["viols"]} - owned)
+    if stray:
+        return f"the trace spec reported invariants no property owns: {stray}"
     s = r["stats"]
     need = dict(ss_steps=200, sl_steps=100, clipped=5, unclipped=50, braking=20, boundary=20, multilink=5,
                 astride=50, curved=20, negerr=5, strap=200, getters=1)
@@ -86,6 +132,8 @@ def _vacuity(r):
         return "the recorded runs do not exercise: " + ", ".join(low)
     if s.get("rejected", 0) * 10 > r["n_cases"]:
         return "more than 10% of the generated cases were rejected by altrios' own validation"
+    if s.get("othererr", 0) * 20 > s.get("ss_runs", 0):
+        return "more than 5% of the set-speed runs were refused for a reason other than a negative speed"
     if s.get("inexact", 0):
         return "a toy-scale header was not exactly representable"
     return None
